@@ -561,6 +561,10 @@ func genRules(r *hv.Rng) (bool, hv.L) {
 func genBlock(r *hv.Rng) (string, hv.Val) {
 	hg, g := genRules(r)
 	hp, p := genRules(r)
+	if r.Chance(1, 4) { // global rules must decide even when the request's product has no rules of its own
+		hg, hp = true, false
+		g = hv.L{hv.L{hv.Bool(false), hv.I(0)}, hv.L{hv.Bool(true), hv.I(r.Intn(2))}}
+	}
 	nb := r.Intn(4)
 	client := r.Intn(6)
 	in := false
@@ -609,12 +613,12 @@ func impl(in hv.Val) hv.Val {
 }
 
 func gen(r *hv.Rng, i int, tier string) (string, hv.Val) {
-	switch x := r.Intn(10); {
+	switch x := r.Intn(10); { // 40% JWT, 30% secure link, 10% basic, 20% block
 	case x < 4:
 		return genJWT(r)
 	case x < 7:
 		return genLink(r)
-	case x < 9:
+	case x < 8:
 		return genBasic(r)
 	}
 	return genBlock(r)
